@@ -2,8 +2,14 @@ pub(crate) mod config;
 mod info;
 pub(crate) mod socket;
 
+#[cfg(not(mainline_verif))]
 use std::collections::HashMap;
+#[cfg(mainline_verif)]
+use std::collections::BTreeMap as HashMap;
+#[cfg(not(mainline_verif))]
 use std::collections::HashSet;
+#[cfg(mainline_verif)]
+use std::collections::BTreeSet as HashSet;
 use std::net::{SocketAddr, SocketAddrV4, ToSocketAddrs};
 
 use flume::Sender;
